@@ -10,6 +10,14 @@ ID = "C16"
 BASE = 0x100
 WIN = 40
 SIZES = (1, 2, 4, 8)
+HIGH = 1 << 32
+
+
+def dev_range(entry):
+    """(begin, end) of a layout entry (offset, size[, HIGH])."""
+    off, size = entry[0], entry[1]
+    hi = entry[2] if len(entry) > 2 else 0
+    return BASE + off + hi, BASE + off + hi + size
 
 
 def layouts(tier):
@@ -29,7 +37,15 @@ def layouts(tier):
     for a, b, c in itertools.product(tri_sizes, repeat=3):
         out.append([(8, a), (8 + a, b), (8 + a + b, c)])
         out.append([(8, a), (8 + a + 2, b), (8 + a + b + 1, c)])
-    return [l for l in out if all(o + s <= WIN for o, s in l)]
+    out = [l for l in out if all(o + s <= WIN for o, s in l)]
+    # devices above 4 GB (40-bit physical addresses of the Large Physical Address Extension): alone, and aliasing a low
+    # device in the low 32 address bits, in both priority orders.  A third element HIGH adds 2^32 to the device address.
+    for a, b in itertools.product((3, 4, 8), repeat=2):
+        out.append([(8, a), (8, b, HIGH)])
+        out.append([(8, a, HIGH), (8, b)])
+    for a in (1, 4, 9):
+        out.append([(8, a, HIGH)])
+    return out
 
 
 def plan(tier):
@@ -47,6 +63,7 @@ def plan(tier):
                    "read_write_read": "every (read X, write Y near X, re-read at X with every size) history, no state merging; thorough re-reads every address overlapping Y", "depth3": "thorough: depth 3 with the event menu restricted to addresses within 4 bytes of a "
                              "device boundary and sizes {1,4,8}"},
         "exhaustive": True,
+        "high_devices": "layouts with a device 2^32 above the window (alone / aliasing a low device, both orders); events at both the low addresses and their aliases",
         "assumptions": ["bytes of a device written by an access that runs past the device end are don't-care "
                         "(the invariants are not)", "devices are RAM objects, as created by add_memory()"],
     }
@@ -56,11 +73,13 @@ def build(layout):
     from armulator.armv6.memory_controller_hub import MemoryControllerHub
     hub = MemoryControllerHub()
     model = []
-    for k, (off, size) in enumerate(layout):
-        hub.add_memory("RAM", BASE + off, BASE + off + size)
+    for k, entry in enumerate(layout):
+        begin, end = dev_range(entry)
+        size = end - begin
+        hub.add_memory("RAM", begin, end)
         init = bytes(((0x10 * (k + 1)) + i) & 0xFF for i in range(size))
         hub.memories[-1].mem.memory_array[:] = init
-        model.append([BASE + off, BASE + off + size, bytearray(init)])
+        model.append([begin, end, bytearray(init)])
     return hub, model
 
 
@@ -166,12 +185,16 @@ def run_shard(arg):
     idx, layout, depth, tier = arg
     res = Result()
     lo, hi = BASE - 8, BASE + WIN + 8
-    events = [(op, a, s) for op in ("r", "w") for s in SIZES for a in range(lo, hi)]
+    high = any(len(e) > 2 for e in layout)
+    addrs = list(range(lo, hi))
+    if high:
+        # both the low window and its alias 2^32 above, a reduced window around the devices
+        addrs = [a + h for h in (0, HIGH) for a in range(BASE, BASE + 24)]
+    events = [(op, a, s) for op in ("r", "w") for s in SIZES for a in addrs]
     bounds = set()
-    for off, size in layout:
-        bounds.add(BASE + off)
-        bounds.add(BASE + off + size)
-    near = [(op, a, s) for op in ("r", "w") for s in (1, 4, 8) for a in range(lo, hi)
+    for entry in layout:
+        bounds.update(dev_range(entry))
+    near = [(op, a, s) for op in ("r", "w") for s in (1, 4, 8) for a in addrs
             if any(-8 <= a - b <= 3 for b in bounds)]
     levels = [events] * depth + ([near] if tier == "thorough" else [])
     hub, model = build(layout)
